@@ -1,6 +1,7 @@
 (* C06 — MRS isomorphism is exact and renaming-invariant; bag comparison partitions. *)
 From Coq Require Import List NArith ZArith Bool.
 From PyD Require Import Base.Str Model.Hier Model.Mrs Model.Iso Proofs.IsoP.
+From PyD Require Import Proofs.IsoComplete.
 Import ListNotations.
 
 (* comparing two bags returns counts that partition both bags, for any matcher *)
@@ -39,3 +40,26 @@ Theorem C06_built_edges_partial : forall g1 g2 mp n m, Built g1 g2 ((n, m) :: mp
   consistent mp g1 g2 n m = true /\ consistent (inv_of mp) g2 g1 m n = true.
 Proof. exact built_edges. Qed.
 Print Assumptions C06_built_edges_partial.
+
+(* completeness of the search: on isomorphic (augmented) graphs - dictionaries
+   of dictionaries with unique keys whose edge targets are nodes - the
+   backtracking search, with its candidate ordering, pruning and the fuel vf2
+   gives it, always returns a mapping, and its domain is exactly the node set
+   of the first graph (the test set(iso) == set(g1) of is_isomorphic):
+   equivalent structures are never reported as different *)
+Theorem C06_vf2_complete : forall g1 g2 psi psi', giso g1 g2 psi psi' -> wf_graph g1 -> wf_graph g2 ->
+  exists r, search (S (length g2)) g1 g2 [] = Some r /\
+            forall n, In n (map fst g1) <-> In n (map fst r).
+Proof. exact search_covers. Qed.
+Print Assumptions C06_vf2_complete.
+
+(* in particular the matcher is reflexive on every well-formed graph *)
+Theorem C06_vf2_reflexive : forall g, wf_graph g ->
+  exists r, search (S (length g)) g g [] = Some r /\ length g <= length r.
+Proof. exact search_reflexive. Qed.
+Print Assumptions C06_vf2_reflexive.
+
+(* the hypotheses are satisfiable: two graphs that differ by swapping two node names *)
+Theorem C06_vf2_complete_nonvacuous : giso ex_g1 ex_g2 ex_swap ex_swap /\ wf_graph ex_g1 /\ wf_graph ex_g2.
+Proof. exact ex_giso. Qed.
+Print Assumptions C06_vf2_complete_nonvacuous.
